@@ -110,6 +110,17 @@ def make_literals(tier, seed):
 
 def rust_lit(s): return '"' + s.replace("\\", "\\\\").replace('"', '\\"') + '"'
 
+def rust_lit_alt(s, i):
+    """the same string VALUE spelled as another kind of Rust string literal (the run-time side always gets the plain one)"""
+    plain = all(32 <= ord(c) < 127 and c not in '"\\' for c in s)
+    if not plain: return rust_lit(s)
+    k = i % 7
+    if k == 1: return 'r"%s"' % s
+    if k == 2: return 'r#"%s"#' % s
+    if k == 3: return '"' + s.replace("-", "\\u{2d}").replace("_", "\\x5f") + '"'
+    if k == 4 and s: return '"\\x%02x%s"' % (ord(s[0]), s[1:])
+    return rust_lit(s)
+
 TYPES = {"lang": ("unic_langid::subtags::Language", "lang!"), "script": ("unic_langid::subtags::Script", "script!"),
          "region": ("unic_langid::subtags::Region", "region!"), "variant": ("unic_langid::subtags::Variant", "variant!"),
          "langid": ("unic_langid::LanguageIdentifier", "langid!"), "locale": ("unic_locale::Locale", "locale!")}
@@ -128,7 +139,7 @@ def gen_good(lits):
              "variant": "&|x| x.as_str().to_string()", "langid": "&|x| fmt_li(x)", "locale": "&|x| fmt_loc(x)"}[m]
         lines.append("fn case_%d() {" % i)
         where[len(lines) + 1] = i
-        lines.append("    let m = std::panic::catch_unwind(|| -> %s { %s(%s) });" % (ty, mac, rust_lit(l)))
+        lines.append("    let m = std::panic::catch_unwind(|| -> %s { %s(%s) });" % (ty, mac, rust_lit_alt(l, i)))
         lines.append("    show(\"macro_%s\", %s, m, %s.parse::<%s>(), %s);" % (m, rust_lit(l), rust_lit(l), ty, f))
         lines.append("}")
     lines.append("fn main() {")
